@@ -7,7 +7,7 @@ from vlib import hx, unhx
 
 
 # ------------------------------------------------------------------ generation
-def gen_history(rng, dynamic=True, big=False):
+def gen_history(rng, dynamic=True, big=False, half_turn=False):
     kinds = ("tetra", "octa", "icosa", "cube", "ico1", "ico2") if not big else ("ico2", "ico3")
     size = 10 ** rng.uniform(-6, 0)
     kind, n, f = tissue.random_mesh(rng, kinds=kinds, size=size, aniso=rng.random() < 0.4, noise=rng.choice([0.0, 0.05]), place=rng.choice([0, 0, 1, 100]) * size)
@@ -39,6 +39,12 @@ def gen_history(rng, dynamic=True, big=False):
             # without free nodes, both, neither
             k = rng.choice([1, 1, 2, 3]); j = rng.choice([max(0, k - 1), k, k, k + 1, 2 * k])
             ev += ["OP 1 %d" % rng.randrange(10 ** 6) for _ in range(k)] + ["OP 0 %d" % rng.randrange(10 ** 6) for _ in range(j)] + ["REBASE", "FRESH", "REFINE"]
+            continue
+        if half_turn and rng.random() < 0.06:
+            # a rigid half turn of the cell about an axis through its centroid (two mirror scalings) after the normals were cached,
+            # then an inflation and a pass WITHOUT a refresh in between: the cached normals of most faces now point the other way
+            a1 = rng.randrange(3); a2 = (a1 + rng.choice([1, 2])) % 3
+            ev += ["FRESH", "A %d %s" % (a1, hx(-1.0)), "A %d %s" % (a2, hx(-1.0)), "S %s" % hx(rng.choice([1.4, 1.8])), "REFINE"]
             continue
         if r < 0.30:
             ev.append("G %s %d" % (hx(rng.choice([0.02, 0.05, 0.1, 0.2, 0.4])), rng.randrange(1 << 30)))
